@@ -78,6 +78,21 @@ func init() {
 	)
 }
 
+// c10UntouchedOnly: every return of pForward from a router-alert handler (the
+// packet goes on with the flag untouched and nobody answers) lies behind one of
+// the given reasons; any other condition under which an alerted packet is
+// passed on means that no router on the path ever answers it.
+func c10UntouchedOnly(c *Ctx, v *FnView, e *E1, dir string, reasons ...Guard) {
+	var fwd []ssa.Instruction
+	for _, r := range e.AllReturns() {
+		if v.S.Sym(r.(*ssa.Return).Results[0]) == dispForward {
+			fwd = append(fwd, r)
+		}
+	}
+	c.Min(v.Name()+":returns-of-pForward", len(fwd), 1)
+	e.Require("T1-alert-owner", dir+"-alert-passed-on-only", nil, fwd, Or("flag not set, or not the owning router", reasons...))
+}
+
 func runC10(c *Ctx) {
 	ext := c.Const("router.External")
 	// T1: who consumes the alert
@@ -95,6 +110,11 @@ func runC10(c *Ctx) {
 			e.AtomGuard("arrived-on-external-interface", "-eq(recv.ingressFromLink, 0)"),
 			e.AtomGuard("ingress-flag-set", "+true("+procT+".ingressRouterAlertFlag(recv))"))
 		v.RequireStore("T1-alert-owner", 1, "local:complit.spType", c.Const("router.slowPathRouterAlertIngress"))
+		// the converse: the owner lets an alerted packet pass untouched ONLY when the flag
+		// is not set (or the packet did not come in over one of its external interfaces)
+		c10UntouchedOnly(c, v, e, "ingress",
+			e.AtomGuard("arrived-on-internal-interface", "+eq(recv.ingressFromLink, 0)"),
+			e.AtomGuard("ingress-flag-not-set", "-true("+procT+".ingressRouterAlertFlag(recv))"))
 	}
 	if v := c.View(procT + ".handleEgressRouterAlert"); v != nil {
 		e := NewE1(c, v.Fn)
@@ -110,6 +130,9 @@ func runC10(c *Ctx) {
 			e.AtomGuard("egress-link-is-external", "+eq(invoke:router.Link.Scope(recv.d.interfaces[recv.pkt.egress]; ), "+ext+")"),
 			e.AtomGuard("egress-flag-set", "+true("+procT+".egressRouterAlertFlag(recv))"))
 		v.RequireStore("T1-alert-owner", 1, "local:complit.spType", c.Const("router.slowPathRouterAlertEgress"))
+		c10UntouchedOnly(c, v, e, "egress",
+			e.AtomGuard("egress-link-is-not-external", "-eq(invoke:router.Link.Scope(recv.d.interfaces[recv.pkt.egress]; ), "+ext+")"),
+			e.AtomGuard("egress-flag-not-set", "-true("+procT+".egressRouterAlertFlag(recv))"))
 	}
 	flagSel := func(q, whenCons, whenNot string) {
 		v := c.View(q)
